@@ -229,16 +229,12 @@ def builders_never_refuse(ctx: Ctx, fq: str = "cirkit.templates.region_graph.gra
             for ch in ast.iter_child_nodes(x):
                 parb[id(ch)] = x
         for r in raises:
-            # the finding is keyed by the builder *and* the condition under which it refuses, so that
-            # another refusal added to the same builder is a new violation, not the known one
-            cur: ast.AST | None = r
-            cond = "unconditional"
-            while cur is not None and cur is not b:
-                up = parb.get(id(cur))
-                if isinstance(up, ast.If):
-                    cond = unparse(up.test)[:40]
-                    break
-                cur = up
+            # the finding is keyed by the builder *and* what the refusal says, so that another refusal
+            # added to the same builder is a new violation, not the known one
+            # (keyed by the message literal, which survives renaming / hoisting of locals; the text of
+            # the condition does not)
+            lits = [c.value for c in ast.walk(r) if isinstance(c, ast.Constant) and isinstance(c.value, str)]
+            cond = lits[0][:32].strip() if lits else f"raise#{raises.index(r)}"
             out.append(viol("R9n", f.qualname, f"refuses:{b.name}:{cond}", f"the builder refuses (`{unparse(r.exc)[:80] if r.exc is not None else 'raise'}`) when the layers below one partition differ in their number of units, which they do on every unbalanced region graph as soon as num_input_units != num_sum_units", f"{f.module.relpath}:{r.lineno}"))
     if not nested:
         out.append(unres("R9n", f.qualname, "refuses", "no nested builder (another formulation): no verdict", f.loc))
